@@ -39,7 +39,7 @@ CLAIMED = {
 
 CLAIMED.update({
     "C10": {
-        "text": "Exhaustive products over a 42-value JSON alphabet (every JSON type, int64/float boundaries, nested), 108 transform configurations (every transform type and parameter corner incl. negative/out-of-range regexp groups, malformed formats), chains of two, 7 patch types x 13 from-paths x 16 to-paths x 13 policies/merge options, combine patches, render/metadata cases: Resolve/Apply never panic, are deterministic and pure (source deep-equal before/after), optional-missing is a no-op and required-missing an error, results agree with an independent reference of each transform's documented meaning and the convert round-trip laws; reconciler-level scenarios show a composed resource whose from-XR patch, metadata or name generation failed is not written while its sibling is.",
+        "text": "Exhaustive products over a 42-value JSON alphabet (every JSON type, int64/float boundaries, nested), 108 transform configurations (every transform type and parameter corner incl. negative/out-of-range regexp groups, malformed formats), chains of two, 7 patch types x 13 from-paths x 16 to-paths x 13 policies/merge options, combine patches, render/metadata cases: Resolve/Apply never panic, are deterministic and pure (source deep-equal before/after), optional-missing is a no-op and required-missing an error, results agree with an independent reference of each transform's documented meaning and the convert round-trip laws; reconciler-level scenarios show a composed resource whose from-XR patch, metadata or name generation failed is not written while its sibling is, and that the merge options of one template's patches do not change what is applied for the next template.",
         "technique": "exhaustive small-scope input enumeration against an independent reference implementation (real Resolve/Apply/PTComposer code)",
     },
     "C14": {
@@ -50,9 +50,9 @@ CLAIMED.update({
 
 CLAIMED.update({
     "C13": {
-        "text": "The real ControllerEngine, InformerTrackingCache, StoppableSource and watch GarbageCollector are compiled with a sync shim that makes every lock acquisition a scheduling point; a cooperative scheduler inside a testing/synctest bubble enumerates all schedules of 2-3 thread scenarios (11 curated collisions, all pairs - thorough: all triples - of single operations from two pre-states) with <= 2 (thorough 3) preemptions. Oracles: no deadlock, linearizability of the call/return history plus final observations against a sequential specification (brute force), handler registrations per kind = watches held by running controllers after the next start request, no registration and no live context after Stop. The collector is additionally run on every combination of XR references and running watches.",
+        "text": "The real ControllerEngine, InformerTrackingCache, StoppableSource and watch GarbageCollector are compiled with a sync shim that makes every lock acquisition a scheduling point; a cooperative scheduler inside a testing/synctest bubble enumerates all schedules of 2-3 thread scenarios (11 curated collisions, all pairs - thorough: all triples - of single operations from two pre-states) with <= 2 (thorough 3) preemptions. Oracles: no deadlock, linearizability of the call/return history plus final observations against a sequential specification (brute force), handler registrations per kind = watches held by running controllers after the next start request, no registration and no live context after Stop. After every execution the engine's watch bookkeeping must agree with the informer cache (no lost or leaked registration, also across removed and re-created informers). The collector is additionally run on every combination of XR references and running watches.",
         "technique": "stateless model checking of the real code under a controlled scheduler (preemption-bounded DFS over schedules) with a linearizability oracle",
-        "note": "Interleaving granularity is lock acquisitions of engine.go/cache.go/source.go; unsynchronised accesses between them (the 'does not race' clause) are outside what this scheduler can observe. Fake manager / informer cache / controller stand in for controller-runtime.",
+        "note": "Interleaving granularity is lock acquisitions and (selected scenarios) lock releases of engine.go/cache.go/source.go, plus informer Get/Remove faults. Unsynchronised accesses between scheduling points (the 'does not race' clause) are invisible to a cooperative scheduler; the thorough tier therefore also runs the same scenario bodies free-running under the Go race detector (auxiliary, sampling, never the deciding step). Fake manager / informer cache / controller stand in for controller-runtime.",
     },
 })
 
@@ -79,29 +79,29 @@ CLAIMED.update({
 
 CLAIMED.update({
     "C11": {
-        "text": "Exhaustive enumeration of XRDs built from choices: 18 spec-property variants (each machinery key shadowed with a different type, all at once, none) x 7 status variants x name maxLength x required lists x CEL rules x oneOf / preserve-unknown-fields / descriptions, 10 version layouts with exactly one referenceable version, claim names absent / present / colliding in each name, default policies, conversion; oracle: structural (every version, one storage version = referenceable, scope, controller reference, author properties / required / rules preserved) and differential (the CRD rendered with colliding author properties equals the one rendered without them; machinery keys equal an independent key->type table; independent of map iteration order); all 22x22 (old,new) update pairs and all creates go through ValidateUpdate/ValidateCreate and the real admission webhook; the real definition and offered reconcilers render the same CRDs over simkube.",
+        "text": "Exhaustive enumeration of XRDs built from choices: 18 spec-property variants (each machinery key shadowed with a different type, all at once, none) x 7 status variants x name maxLength x required lists x CEL rules x oneOf / preserve-unknown-fields / descriptions, 10 version layouts with exactly one referenceable version, claim names absent / present / colliding in each name (also with the other optional name omitted), default policies, conversion; oracle: structural (every version, one storage version = referenceable, scope, controller reference, author properties / required / rules preserved) and differential (the CRD rendered with colliding author properties equals the one rendered without them; machinery keys equal an independent key->type table; independent of map iteration order); all 22x22 (old,new) update pairs and all creates go through ValidateUpdate/ValidateCreate and the real admission webhook; the real definition and offered reconcilers render the same CRDs over simkube.",
         "technique": "exhaustive small-scope input enumeration with structural and differential oracles on the real xcrd / validation / webhook code",
     },
     "C15": {
-        "text": "The real revision reconciler (image backend, parser, per-type linters, version gate, signature gate, filesystem package cache) with a recording establisher over: the full product revision type x meta kind {each type, none, two} x up to 1 (thorough 2) objects of 6 kinds x 4 image layouts x 4 crossplane constraints x ignore flag x 4 signature-gate states, each reconciled twice (registry path then cache path) against the table of contributing/specifications/xpkg.md; every registry read-fault position (each 64 bytes and every YAML document boundary +-1, on the validation read or the parse read) and every single filesystem fault of the cache from 4 initial cache states, each followed by fault-free reconciles: the establisher never receives a set that differs from the image's; and the xpkg build round trip for every allowed object subset.",
+        "text": "The real revision reconciler (image backend, parser, per-type linters, version gate, signature gate, filesystem package cache) with a recording establisher over: the full product revision type x meta kind {each type, none, two} x up to 1 (thorough 2) objects of 6 kinds x 4 image layouts x 4 crossplane constraints x ignore flag x 4 signature-gate states, each reconciled twice (registry path then cache path) against the table of contributing/specifications/xpkg.md; 4 image layouts with and without decoy files named package.yaml in sub-directories of the package layer; every registry read-fault position (each 64 bytes and every YAML document boundary +-1, on the validation read or the parse read, delivered as (0,err), (n>0,err), early EOF or (n>0,EOF)) and every single filesystem fault of the cache from 4 initial cache states, each followed by fault-free reconciles: the establisher never receives a set that differs from the image's; and the xpkg build round trip for every allowed object subset.",
         "technique": "exhaustive input-product enumeration plus exhaustive single-fault (read position / filesystem operation) enumeration on the real reconciler",
     },
 })
 
 CLAIMED.update({
     "C12": {
-        "text": "Depth-bounded exhaustive search (state-hash pruning; transitions memoised per (state, event, fault decisions)) over sequences of: Composition edits to five contents (spec change, label-only, annotation-only, step-input change, incl. A-B-A reverts), real revision-controller reconciles in which every API call is a fault/crash point, stripping the owner references of all revisions (backup/restore), deletion of the oldest revision, and real XR reconciles for a Manual, an Automatic and an Automatic-with-selector XR; from a fresh state and from a prepared three-revision history. R1 one revision per content hash, R2 revision specs never edited apart from the number, R3 numbers never decrease, R4 after a completed reconcile the current content's revision has the strictly highest number, R5 Manual XRs keep their revision and Automatic XRs end on the highest-numbered controlled (selector-matching) revision.",
+        "text": "Depth-bounded exhaustive search (state-hash pruning; transitions memoised per (state, event, fault decisions)) over sequences of: Composition edits to five contents (spec change, label-only, annotation-only, step-input change, incl. A-B-A reverts), real revision-controller reconciles in which every API call is a fault/crash point, stripping the owner references of all revisions (backup/restore), deletion of the oldest revision, and real XR reconciles for a Manual, an Automatic and an Automatic-with-selector XR; from a fresh state and from a prepared three-revision history. R1 one revision per content hash, R2 revision specs never edited apart from the number, R3 numbers never decrease, R4 after a reconcile that reports completion (no error, no requeue - also when a call inside it was answered with an injected fault) the current content's revision has the strictly highest number, R5 Manual XRs keep their revision and Automatic XRs end on the highest-numbered controlled (selector-matching) revision.",
         "technique": "explicit-state search over event sequences with the real reconcilers as transition function, plus fault/crash-point enumeration",
     },
 })
 
 CLAIMED.update({
     "C09": {
-        "text": "Real XR reconciler (both composers, XRD key filter) and real claim reconciler (both syncers) over simkube: all 8 produced-key subsets x 4 key filters x 3 ways of asking x pre-existing destination secret {absent, uncontrolled connection type, uncontrolled Opaque, owned, other UID} x stale data; P&T extraction configs of all three types incl. missing keys / paths and unnamed configs; 9 source-secret situations x destination states for claim propagation (a claim never copies a secret its XR does not control; foreign secrets stay byte-identical); steady-state reconciles write nothing and do not move lastPublishedTime; one injected API fault (reads included) in any of 5 reconciles followed by fault-free reconciles to quiescence ends in the reference secrets.",
+        "text": "Real XR reconciler (both composers, XRD key filter) and real claim reconciler (both syncers) over simkube: all 8 produced-key subsets x 4 key filters x 3 ways of asking x pre-existing destination secret {absent, uncontrolled connection type, uncontrolled Opaque, owned, other UID} x stale data; P&T extraction configs of all three types incl. missing keys / paths and unnamed configs; 9 source-secret situations x destination states for claim propagation (a claim never copies a secret its XR does not control; foreign secrets stay byte-identical); steady-state reconciles write nothing and do not move lastPublishedTime; one injected API fault (reads included) in any of 5 reconciles followed by fault-free reconciles to quiescence ends in the reference secrets; a function that copies the details of observed composed resources never receives (from the cache or, on a cache miss, from the API server) a resource named in spec.resourceRefs that another owner controls, and its details never reach the XR's secret.",
         "technique": "exhaustive configuration enumeration plus single-fault enumeration on the real reconcilers against a reference model of published keys",
     },
     "C19": {
-        "text": "Depth-bounded exhaustive search (state-hash pruning) over creations / deletions of two Usages of one resource (by reference, by selector, with controller matching, with and without a using resource, naming API version v1 or v2, replayDeletion), real usage reconciles with an API write fault or crash at any call, DELETE requests with every propagation policy through both API versions, deletion of the using resource, garbage-collector runs and clock advances; DELETE admission is dispatched to the real webhook handler and index function according to the repository's webhook configuration. M1 every DELETE is refused while a Usage of the resource is Ready and not being deleted and allowed when none names it, M2 refused attempts are recorded, M3 marker before ready, M4 marker removed only by the last Usage, M5 a Usage by a resource is owned by it.",
+        "text": "Depth-bounded exhaustive search (state-hash pruning) over creations / deletions of two Usages of one resource (by reference, by selector, with controller matching, with and without a using resource, naming API version v1 or v2, replayDeletion, composed Usages whose deletion waits for the using resource; from the initial state and from a state with both Usages Ready), real usage reconciles with an API write fault or crash at any call, DELETE requests with every propagation policy through both API versions, deletion of the using resource, garbage-collector runs and clock advances; DELETE admission is dispatched to the real webhook handler and index function according to the repository's webhook configuration. M1 every DELETE is refused while a Usage of the resource is Ready and not being deleted and allowed when none names it, M2 refused attempts are recorded, M3 marker before ready, M4 marker removed only by the last Usage (no other Usage of the resource exists, waiting-to-be-finalized ones included), M5 a Usage by a resource is owned by it.",
         "technique": "explicit-state search over event sequences with the real reconciler and admission handler as transition functions, plus fault/crash-point enumeration",
     },
 })
@@ -115,26 +115,26 @@ CLAIMED.update({
 
 CLAIMED.update({
     "C02": {
-        "text": "Exhaustive table of 17 write sites (function composer: referenced object, desired-name collision, garbage collection; P&T composer: referenced object, removed template; XR connection secret; claim connection secret with both syncers; XRD to composite CRD and claim CRD; package to revision; active revision establishing an object; RBAC provider system / edit roles and binding; XRD roles) x target pre-state {absent, uncontrolled, controlled by the owner, controlled by a foreign UID} x 1..3 reconcile rounds on the real reconcilers over simkube: a foreign-controlled target stays byte-identical, the write log shows no effective write addressed to it, and the conflict surfaces as a returned error, a warning event or an unsynced condition (sites that never address the foreign object need not surface anything); absent / owned rows are controls proving the site does write.",
+        "text": "Exhaustive table of 18 write sites (function composer: referenced object, desired-name collision, garbage collection; P&T composer: referenced object, name fixed by a patch, removed template; XR connection secret; claim connection secret with both syncers; XRD to composite CRD and claim CRD; package to revision; active revision establishing an object; RBAC provider system / edit roles and binding; XRD roles) x target pre-state {absent, uncontrolled, controlled by the owner, controlled by a foreign UID; composer sites also: adopted by a foreign UID while the controller's cache still serves the version it owned / that was uncontrolled, then the cache catches up} x 1..3 reconcile rounds on the real reconcilers over simkube: a foreign-controlled target stays byte-identical, the write log shows no effective write addressed to it, and the conflict surfaces as a returned error, a warning event or an unsynced condition (sites that never address the foreign object need not surface anything); absent / owned rows are controls proving the site does write.",
         "technique": "exhaustive configuration-table enumeration on the real reconcilers with a write-log oracle",
     },
 })
 
 CLAIMED.update({
     "C08": {
-        "text": "Four closed sub-systems searched by depth-bounded DFS with state-hash pruning, every transition executed by the real code: H1 claim + XR + dependent with a provider finalizer (Background / Foreground, both syncers); H2 XRD with the real definition and offered reconcilers, a recording controller engine, and a bound claim + XR that are only reconciled while their dynamic controller runs (composite CRD ours or foreign); H3 package revision + dependency Lock (real revision reconciler and PackageDependencyManager); H4 composed Usage + using + used resource. Events: user deletions (claim, XR, XRD, revision, Usage, using resource), one full reconcile of any controller on any object with an API fault or crash at any call, single garbage-collector steps (which one is a choice), third-party finalizer removal. Trace monitors at every write: claim finalizer removed only after an XR delete was issued (Foreground: XR gone); CRD deleted only with no instances and a stopped controller; controller stopped only with no instances; XRD finalizers removed only when the CRD is gone or never ours; revision finalized only when out of the Lock; composed Usage finalized only when its using resource is gone.",
+        "text": "Four closed sub-systems searched by depth-bounded DFS with state-hash pruning, every transition executed by the real code: H1 claim + XR + dependent with a provider finalizer (Background / Foreground, both syncers); H2 XRD with the real definition and offered reconcilers, a recording controller engine, and a bound claim + XR that are only reconciled while their dynamic controller runs (composite CRD ours or foreign; a CRD whose deletion was requested stays terminating behind the API server's customresourcecleanup finalizer until a crd-cleanup event has seen its instances go; a third party may delete the composite CRD; starts: steady, XRD deletion under way, CRD deleted by a third party); H3 package revision + dependency Lock (real revision reconciler and PackageDependencyManager); H4 composed Usage + using + used resource. Events: user deletions (claim, XR, XRD, revision, Usage, using resource), one full reconcile of any controller on any object with an API fault or crash at any call, single garbage-collector steps (which one is a choice), third-party finalizer removal. Trace monitors at every write: claim finalizer removed only after an XR delete was issued (Foreground: XR gone); CRD deleted only with no instances and a stopped controller; controller stopped only with no instances; XRD finalizers removed only when the CRD is gone or never ours; revision finalized only when out of the Lock; composed Usage finalized only when its using resource is gone.",
         "technique": "explicit-state search over event sequences (deletions, reconciles, GC steps) with the real reconcilers as transition functions, plus fault/crash-point enumeration",
     },
 })
 
 CLAIMED.update({
     "C04": {
-        "text": "All pipelines of 1..2 (thorough 1..3) steps over 28 request-deterministic primitives (desired add/drop/reorder/mutate, context set/overwrite/clear, results and conditions of each severity/target, fatal, composite status and connection details, requirements by name present/absent, by labels with 0/1/2 matches, requirements that change once, drop, chain up to the iteration limit or never stabilise, step input, credentials present/absent) x 4 observed states run through the real XR reconciler (FunctionComposer + FetchingFunctionRunner + ExistingExtraResourcesFetcher) with a recording function runner; the recorded request sequence is compared call by call (proto.Equal) with an independent reference interpreter of the function contract, plus surfaced events, conditions and the final applied state. PackagedFunctionRunner: all operation sequences of depth 3 (thorough 4) over {run f, run g, switch active revision, change endpoint, uninstall / reinstall, GC connections} against in-process gRPC servers on unix sockets (v1 and v1beta1-only): exactly one delivery at the active revision's endpoint, version fallback preserves request and response, GC closes exactly the connections of uninstalled functions.",
+        "text": "All pipelines of 1..2 (thorough 1..3) steps over 28 request-deterministic primitives (desired add/drop/reorder/mutate, context set/overwrite/clear, results and conditions of each severity/target, fatal, composite status and connection details, requirements by name present/absent, by labels with 0/1/2 matches, requirements that change once, drop, chain up to the iteration limit or never stabilise, step input, credentials present/absent - every step calls its credential 'creds' and points it at its own secret) x 4 observed states run through the real XR reconciler (FunctionComposer + FetchingFunctionRunner + ExistingExtraResourcesFetcher) with a recording function runner; the recorded request sequence is compared call by call (proto.Equal) with an independent reference interpreter of the function contract, plus surfaced events, conditions and the final applied state. PackagedFunctionRunner: all operation sequences of depth 3 (thorough 4) over {run f, run g, switch active revision, change endpoint, uninstall / reinstall, GC connections} against in-process gRPC servers on unix sockets (v1 and v1beta1-only): exactly one delivery at the active revision's endpoint, version fallback preserves request and response, GC closes exactly the connections of uninstalled functions.",
         "technique": "exhaustive enumeration of function-pipeline programs and runner operation sequences against an independent reference interpreter",
         "note": "Trusted base: simkube, gRPC and protobuf libraries (real sockets for the runner part, run outside the synctest bubble with a watchdog deadline that is a harness error, never a verdict).",
     },
     "C20": {
-        "text": "The step list of `crossplane core init` reproduced with the same constructors, options and order (real TLS/CA generator, core CRDs and webhook configurations from /repo/cluster, lock, package installer, store config, runtime config, CRD migrator) over simkube: 38 (thorough 70) initial stores (empty, fully initialised, after step i for every i, CA with only key or cert, TLS secrets missing each key, other CA bundles on every carrier, user-edited defaults, an older release) x 3 runs - store equality (symbolic: key material replaced by its location), byte-identical secrets, unchanged resourceVersions of default objects, x509 verification of issued certificates for the service DNS names, bundles validate the serving certificate; 3 package kinds x 7 (12) reference forms x 8 (15) installed sets - no two packages of a kind share a repository, existing objects keep their name; and a run aborted by an API error / crash at any call followed by a clean run equals one clean run.",
+        "text": "The step list of `crossplane core init` reproduced with the same constructors, options and order (real TLS/CA generator, core CRDs and webhook configurations from /repo/cluster, lock, package installer, store config, runtime config, CRD migrator) over simkube: 38 (thorough 70) initial stores (empty, fully initialised, after step i for every i, CA with only key or cert, TLS secrets missing each key, other CA bundles on every carrier, user-edited defaults, an older release) x 3 runs - store equality (symbolic: key material replaced by its location), byte-identical secrets, unchanged resourceVersions of default objects, x509 verification of issued certificates for the service DNS names, bundles validate the serving certificate; 3 package kinds x 7 (12) reference forms x 8 (15) installed sets - no two packages of a kind share a repository, existing objects keep their name; a run aborted by an API error / crash at any call followed by a clean run equals one clean run; and the package installer step alone with every API call (its three Lists included) a fault point, from stores with packages installed under user-chosen names: neither the faulted run nor faulted + clean run leaves a package object a clean run would not.",
         "technique": "exhaustive enumeration of initial stores, reference forms and abort points (fault enumeration) with a differential single-clean-run oracle",
     },
 })
